@@ -9,13 +9,15 @@ from ..r_construct import rule_protocol_dunders as _rule_dunders
 from ..r_round8 import rule_stereo_gates as _r8_gates
 from ..r_round9 import rule_scope_abandons_permutation as _r9_scope
 
+from ..r_round10 import rule_target_numbers_on_target as _r10_tn
+
 LEVEL = 'other'
 
 
 def run(ck, repo):
     ck.undecided += ['completeness (no mapping lost) of the DFS linearisation with back-references, component permutation logic, lazy_product: all-pairs-of-graphs statements']
     rule_admission_guards(ck, repo, 'C07.D1-admission-guards')
-    rule_domains(ck, repo, 'C07.D1-index-domains', only=[':_get_mapping'])
+    rule_domains(ck, repo, 'C07.D1-index-domains', only=[':_get_mapping', 'QueryIsomorphism.get_mapping'])
     rule_filter_and_operators(ck, repo, 'C07.D2-filter-operators')
     in_iso = lambda f: f.module.name == 'chython.algorithms.isomorphism'
     rule_yield_then_mutate(ck, repo, 'C07.D3-yielded-mappings-immutable', in_iso, floor=5)
@@ -24,3 +26,4 @@ def run(ck, repo):
     _rule_dunders(ck, repo, 'C07.D0-container-protocols', ['chython.containers.molecule:MoleculeContainer', 'chython.containers.query:QueryContainer', 'chython.containers.cgr:CGRContainer'])
     _r8_gates(ck, repo, 'C07.D4-stereo-gates')
     _r9_scope(ck, repo, 'C07.D5-scope-abandons-permutation')
+    _r10_tn(ck, repo, 'C07.D6-target-numbers')
